@@ -196,10 +196,19 @@ func (g GroupedPoints) SetValue(v reflect.Value) error {
 		if keyK := t.Key().Kind(); keyK != reflect.String {
 			return fmt.Errorf("cannot set map keyed by %v", keyK)
 		}
-		if len(g.Points) > maxStructureSize {
+		// Only points that add or update an entry count towards the size
+		// limit; tombstone points only remove entries (DiffPoints emits one
+		// for every removed key in addition to the points of the new map)
+		numSet := 0
+		for _, p := range g.Points {
+			if p.Tombstone%2 != 1 {
+				numSet++
+			}
+		}
+		if numSet > maxStructureSize {
 			return fmt.Errorf(
 				"number of points %v exceeds maximum of %v for a map",
-				len(g.Points), maxStructureSize,
+				numSet, maxStructureSize,
 			)
 		}
 		// Ensure points are keyed
